@@ -926,6 +926,17 @@ def check(ctx: Ctx) -> None:
                "value where a rule says so (figure path: see C06)")
     ctx.undecided("pixel dimensions of malformed image files; behaviour of the JPEG scan over several iterations beyond the one generic step (termination, standalone markers without a length)")
     r16_1(ctx)
+    # R16.1 complement: a memo on the figure read path whose key omits (or only projects) an input of the stored bytes
+    from ..effects import memo_key_gaps
+    for fi in ctx.pm.iter_funcs():
+        if not (fi.module.endswith(".figure") or fi.module.endswith("figure_service")):
+            continue
+        for node, cont, kl, vl, missing in memo_key_gaps(ctx.pm, fi):
+            ctx.instance("R16.1", fi.where(node), f"{fi.short}: memo in {cont}: key {kl}; value depends on {vl}")
+            if missing:
+                ctx.violation("R16.1", fi.short, f"memo {cont} key lacks {','.join(missing)[:80]}", fi.where(node),
+                              f"{fi.short}: image bytes/format are cached in {cont} under a key that does not determine them ({missing}): a different file with the same key "
+                              "is embedded with another file's payload and dimensions")
     r16_2_3(ctx)
     units_rule(ctx, "R16.4")
     r16_5(ctx)
